@@ -290,6 +290,26 @@ def _s4b_inplace_narrowing(program, res):
             if not handled and all(any(lab is True and f"isinstance({sub}," in unparse(b.cond).replace(" ", "").replace("\n", "") and "UnaryStep" in unparse(b.cond)
                                        for b, lab in g.lexical_guards(g.containing_node(st))) for st in stores):
                 handled = True
+            # the narrowed select list must not become empty: an emitter turns an empty list into `*`, and for an aggregating sub-step
+            # (un-grouped project) `SELECT * FROM <its source>` is no longer an aggregation
+            for st in stores:
+                v = st.value
+                if isinstance(v, ast.Name):
+                    # a local holding the narrowed list: judged by its (single) definition
+                    defs = [a.value for a in ast.walk(m.node) if isinstance(a, ast.Assign) and len(a.targets) == 1
+                            and isinstance(a.targets[0], ast.Name) and a.targets[0].id == v.id]
+                    if len(defs) == 1:
+                        v = defs[0]
+                direct_comp = isinstance(v, (ast.DictComp, ast.Dict))
+                node = g.containing_node(st)
+                nonempty_guard = any(lab is True and ("len(" in unparse(b.cond) and (">" in unparse(b.cond))) for b, lab in g.lexical_guards(node))
+                if direct_comp and not nonempty_guard and not any(isinstance(b.stmt, ast.If) and "isinstance" in unparse(b.cond) for b, _l in g.lexical_guards(node)):
+                    res.fail_at("C08-S4", m, f"narrowing-can-empty-select-list:{m.name}",
+                                f"{m.name} stores the narrowed select list into `{sub}.terms` even when nothing is requested of it: the emitter prints an empty list as `*`, so an "
+                                f"un-grouped project below it turns into `SELECT * FROM <source>` — d.project({{'y': 'y.max()'}}).select_columns(['y']).project({{'n': '_size()'}}) "
+                                f"returns 3 on SQLite (one row per source row) and 1 on Pandas / Polars", st)
+                elif direct_comp:
+                    res.ok("C08-S4", f"{m.name}: the narrowed select list replaces the sub-step's only when it is not empty")
             if handled:
                 res.ok("C08-S4", f"{m.name}: a sub-step without a select list of its own is wrapped in a selecting step")
             else:
@@ -370,6 +390,31 @@ def _s7_record_transform_columns(program, res):
             raise AnalysisError(f"{cls}.blocks_to_rowrecs: expected the empty-input return and the main return")
 
 
+def _s4c_union_raw_operands(program, res):
+    """UNION ALL pairs its operands' columns by position.  An operand with no select list of its own (user SQL, record conversion: terms is None;
+    its emitter ignores the columns it is bound to) has to be wrapped in a selecting step before it becomes an operand"""
+    m = program.method("sql_model", "SQLModel", "concat_rows_to_near_sql", inherited=False)
+    res.analysed(m)
+    operands = [st.targets[0].id for st in ast.walk(m.node) if isinstance(st, ast.Assign) and len(st.targets) == 1 and isinstance(st.targets[0], ast.Name)
+                and isinstance(st.value, ast.Call) and isinstance(st.value.func, ast.Attribute) and st.value.func.attr == "to_near_sql_implementation_"]
+    if len(operands) < 2:
+        raise AnalysisError("concat_rows_to_near_sql: the two operand steps were not found")
+    for o in operands:
+        wrapped = False
+        for t in ast.walk(m.node):
+            if isinstance(t, ast.If) and isinstance(t.test, ast.Compare) and unparse(t.test.left) == f"{o}.terms" and isinstance(t.test.comparators[0], ast.Constant) \
+                    and t.test.comparators[0].value is None and isinstance(t.test.ops[0], ast.Is):
+                if any(isinstance(a, ast.Assign) and unparse(a.targets[0]) == o and isinstance(a.value, ast.Call) and "NearSQL" in (dotted_name(a.value.func) or "")
+                       and any(kw.arg == "terms" for kw in a.value.keywords) for a in ast.walk(t)):
+                    wrapped = True
+        if wrapped:
+            res.ok("C08-S4", f"concat_rows: operand `{o}` without a select list is wrapped in a step that selects the union's columns by name")
+        else:
+            res.fail_at("C08-S4", m, f"union-operand-raw:{o}",
+                        f"concat_rows_to_near_sql binds `{o}` to the union's columns, but a raw operand (convert_records, SQLNode) ignores that binding and emits its own "
+                        f"columns in its own order: b(val,key,id).concat_rows(a.convert_records(...)) puts the operand's id values into val on SQLite (Pandas / Polars pair by name)")
+
+
 def _s5_declared_order(program, res):
     """the result's column order is the pipeline's declared order: the last thing each executor does is to lay the columns out by
     op.column_names (SQL: the top-level select list; Pandas: a final selection; Polars: every step ends in select(columns_produced), S2)"""
@@ -437,6 +482,7 @@ def run(program, res, tier):
     c16.twin_cleanup_rule(program, res, rule="C08-S3")
     _s4(program, res)
     _s4b_inplace_narrowing(program, res)
+    _s4c_union_raw_operands(program, res)
     res.rule("C08-S5", "each executor lays the final result out in the declared column order")
     _s5_declared_order(program, res)
     res.rule("C08-S6", "map_columns: deletions are applied to the input columns, before renaming")
